@@ -13,7 +13,7 @@ vocabulary in `Model.Resolve.AttrSpec`. Helper lemmas: `Proofs/C19*.lean`.
 Statements only; every theorem quantifies over ALL inputs (no bound on the length of
 op sequences, on keys or on values).
 -/
-import DepsDev.Proofs.C19DepQuoted
+import DepsDev.Proofs.C19DepAll
 
 namespace DepsDev.Props.C19
 open DepsDev DepsDev.Gen DepsDev.Model.Resolve DepsDev.Model.Resolve.Attr DepsDev.Model.Resolve.AttrText
@@ -297,14 +297,13 @@ theorem c19_dep_text_quoted_witnesses :
 /-- PARTIAL (hypothesis `depTextOK`: every value that must be written quoted — empty,
 starting with `"`, or containing white space — is the LAST item written, does not end in
 a backslash, does not start with a space and has no two adjacent spaces; its negation is
-the classifier of F-C19-deptest-quoted. Additional hypothesis `depQuotedAscii`, a limit
-of the proof and not a finding class: that quoted value is an ASCII string; unquoted
-values are arbitrary byte strings): the round trip holds. -/
+exactly the classifier of F-C19-deptest-quoted): the round trip holds, for arbitrary
+byte values (valid UTF-8 or not), quoted or not. -/
 theorem c19_dep_text_roundtrip_partial (h : Heap) (s : Set) (hs : SetOK h s)
     (hk : knownKeys C19AttrKeys.depAllKeys C19AttrKeys.depFlagKeys h s = true)
-    (ht : depTextOK h s = true) (ha : depQuotedAscii h s = true) :
+    (ht : depTextOK h s = true) :
     ∃ h' s', depParseString h (depWrite h s) = .ok (h', s') ∧ Attr.compare h' s s' = .eq := by
-  obtain ⟨h', s', he, _, _, _, hc⟩ := dep_roundtrip_quoted h s hs hk ht ha
+  obtain ⟨h', s', he, _, _, _, hc⟩ := dep_roundtrip_all h s hs hk ht
   exact ⟨h', s', he, hc⟩
 
 /-- special case without any quoted value (`depPlain`), for arbitrary byte values. -/
@@ -317,10 +316,10 @@ theorem c19_dep_text_roundtrip_plain (h : Heap) (s : Set) (hs : SetOK h s)
 
 theorem c19_dep_text_roundtrip_reachable (st : State) (hr : Reachable .d st) (i : Nat)
     (hk : knownKeys C19AttrKeys.depAllKeys C19AttrKeys.depFlagKeys st.heap (st.regs i) = true)
-    (ht : depTextOK st.heap (st.regs i) = true) (ha : depQuotedAscii st.heap (st.regs i) = true) :
+    (ht : depTextOK st.heap (st.regs i) = true) :
     ∃ h' s', depParseString st.heap (depWrite st.heap (st.regs i)) = .ok (h', s') ∧
       Attr.compare h' (st.regs i) s' = .eq :=
-  c19_dep_text_roundtrip_partial _ _ ((inv_reachable .d st hr).ok i) hk ht ha
+  c19_dep_text_roundtrip_partial _ _ ((inv_reachable .d st hr).ok i) hk ht
 
 /-- `depPlain` is inside the classifier's complement. -/
 theorem depPlain_imp_depTextOK (h : Heap) (s : Set) (hp : depPlain h s = true) : depTextOK h s = true := by
@@ -337,13 +336,13 @@ theorem depPlain_imp_depTextOK (h : Heap) (s : Set) (hp : depPlain h s = true) :
     | none => simp only [quotedItemsOK]; exact ih hp.2
 
 /-- non-vacuity: flags, valued keys with non-ASCII, backslash and inner-quote values
-written bare, and a last value that is written quoted (it contains spaces, a quote, a
-backslash and a tab). -/
+written bare, and a last value that is written quoted (spaces, a quote, a backslash, a
+tab, a non-ASCII letter, an invalid byte and a no-break space U+00A0). -/
 example :
     let w := mk [(-2, []), (3, [0x61, 0x22, 0x5C]), (7, [0xC3, 0xA9]), (-1, []),
-                 (10, [0x61, 0x20, 0x22, 0x5C, 0x20, 0x09, 0x62])]
+                 (10, [0x61, 0x20, 0x22, 0x5C, 0x20, 0x09, 0xC3, 0xA9, 0xFF, 0xC2, 0xA0, 0x62])]
     knownKeys C19AttrKeys.depAllKeys C19AttrKeys.depFlagKeys w.1 w.2 = true ∧ depTextOK w.1 w.2 = true ∧
-    depQuotedAscii w.1 w.2 = true ∧ depPlain w.1 w.2 = false := by decide
+    depPlain w.1 w.2 = false := by decide
 
 /-- non-vacuity of the plain case, with the map-resident flag `Selector`. -/
 example :
@@ -362,20 +361,21 @@ example :
 
 /-! ## 7. strconv.Quote / Unquote and the single-attribute form (`ATTR:` lines) -/
 
-/-- `strconv.Unquote(strconv.Quote(v)) = v` for every ASCII string `v` (printable
-characters, quotes, backslashes, control characters — all 128 byte values < 0x80). -/
-theorem unquote_quote_ascii (v : Bytes) (hv : isAscii v = true) : unquote (quote v) = some v :=
-  unquote_quote v hv
+/-- `strconv.Unquote(strconv.Quote(v)) = v` for EVERY byte string `v`: ASCII incl. control
+characters, quotes and backslashes; valid multi-byte runes, printable (written raw) or
+not (`\u`, `\U`); invalid UTF-8 bytes (`\xHH`). -/
+theorem unquote_quote (v : Bytes) : unquote (quote v) = some v := unquote_quote_all v
 
 /-- `versiontest.ParseSingle(lower(key) + " " + Quote(value))` yields the set holding
-exactly that attribute, for every declared key and every ASCII value (empty, spaced,
-quoted, ... included): a flag key sets its mask bit, a valued key maps to the value. -/
+exactly that attribute, for every declared key and EVERY byte value (empty, spaced,
+quoted, non-UTF-8 ... included): a flag key sets its mask bit, a valued key maps to the
+value. -/
 theorem c19_ver_single_roundtrip (h : Heap) (key : Int) (hkey : key ∈ C19AttrKeys.versionAllKeys)
-    (v : Bytes) (hv : isAscii v = true) :
+    (v : Bytes) :
     ∃ h' s', versionParseSingle h (singleText key v) = .ok (h', s') ∧ SetOK h' s' ∧
       s'.mask = (if key < 0 then key.natAbs else 0) ∧
       ∀ k, getAttr h' s' k = if 0 ≤ key ∧ k = key.toNat then some v else none := by
-  obtain ⟨h', s', he, hok, habs⟩ := ver_single_roundtrip h key hkey v hv
+  obtain ⟨h', s', he, hok, habs⟩ := ver_single_roundtrip_all h key hkey v
   refine ⟨h', s', he, hok, ?_, ?_⟩
   · have := congrArg Prod.fst habs
     simp only [absOf, stepAbs_fst] at this
@@ -405,9 +405,9 @@ by the correspondence ops named in brackets) and the generated constants it uses
    "model": ["AttrText.versiontestString", "AttrText.versionParseString", "AttrText.fields", "AttrText.parseItems", "AttrText.dictLookup", "AttrText.keyName", "AttrMachine.knownKeys", "AttrMachine.verTextOK"],
    "ops": ["x", "p", "rt", "cl"], "gen": ["C19AttrKeys.versionNames", "C19AttrKeys.versionAllKeys", "C19AttrKeys.versionFlagKeys", "C19Print.spacePatterns", "C19Print.lowerToAscii"]},
  "c19_dep_text_roundtrip_false|c19_dep_text_quoted_witnesses|c19_dep_text_roundtrip_partial|c19_dep_text_roundtrip_plain|c19_dep_text_roundtrip_reachable|depPlain_imp_depTextOK": {
-   "model": ["AttrText.depWrite", "AttrText.depItems", "AttrText.depParseString", "AttrText.joinQuoted", "AttrText.fields", "AttrText.quote", "AttrText.unquote", "AttrText.parseItems", "AttrMachine.knownKeys", "AttrMachine.depTextOK", "AttrMachine.depQuotedAscii", "AttrMachine.depPlain"],
+   "model": ["AttrText.depWrite", "AttrText.depItems", "AttrText.depParseString", "AttrText.joinQuoted", "AttrText.fields", "AttrText.quote", "AttrText.unquote", "AttrText.parseItems", "AttrMachine.knownKeys", "AttrMachine.depTextOK", "AttrMachine.depPlain"],
    "ops": ["w", "p", "rt", "cl"], "gen": ["C19AttrKeys.depNames", "C19AttrKeys.depAllKeys", "C19AttrKeys.depFlagKeys", "C19Print.spacePatterns", "C19Print.printRanges", "C19Print.lowerToAscii"]},
- "unquote_quote_ascii|c19_ver_single_roundtrip": {
+ "unquote_quote|c19_ver_single_roundtrip": {
    "model": ["AttrText.quote", "AttrText.unquote", "AttrText.versionParseSingle", "AttrText.trimSpace", "AttrText.cutSpace"], "ops": ["qs", "q", "t"], "gen": ["C19AttrKeys.versionNames", "C19AttrKeys.versionAllKeys", "C19Print.spacePatterns"]}
 }
 -/
